@@ -422,6 +422,27 @@ def rule_str_never_formats_none(eng, rep, rule="C20-4.str-never-formats-None", s
                 rep.ok(rule, eng.where(st, node), "len(self.%s) %s" % (f, "guarded by None test" if guarded else "only for results that carry a solution"))
             else:
                 rep.bad(rule, eng.where(st, node), "solver.OptimResults.__str__|len-of-none|%s" % f, "len(self.%s) without a None / input-error guard" % f)
+    # the diagnostic table can be empty (termination before the first iteration): positional access needs an emptiness test
+    for node in eng.prog.own_nodes(st):
+        if isinstance(node, ast.Subscript) and isinstance(node.ctx, ast.Load):
+            root = node.value
+            chain = []
+            while isinstance(root, (ast.Attribute, ast.Subscript, ast.Call)):
+                chain.append(root.attr if isinstance(root, ast.Attribute) else "")
+                root = root.func if isinstance(root, ast.Call) else root.value
+            if "diagnostic_info" not in chain or not isinstance(root, ast.Name) or root.id != selfn:
+                continue
+            if not (set(chain) & {"iloc", "loc", "values", "iat", "at"}) and not isinstance(node.slice, (ast.Constant, ast.UnaryOp)):
+                continue
+            gs = [a for (_b, a) in guards_of(cfg, cfg.cfg_node(node))]
+            nonempty = any("diagnostic_info" in ekey(a.lhs) + (ekey(a.rhs) if a.rhs is not None else "") and
+                           (("len(" in ekey(a.lhs) + (ekey(a.rhs) if a.rhs is not None else "")) or ".empty" in ekey(a.lhs) or ".shape" in ekey(a.lhs) + (ekey(a.rhs) if a.rhs is not None else ""))
+                           for a in gs)
+            if nonempty:
+                rep.ok(rule, eng.where(st, node), "positional access to the diagnostic table under an emptiness test")
+            else:
+                rep.bad(rule, eng.where(st, node), "solver.OptimResults.__str__|indexes-possibly-empty-table|%s" % short(node, 25),
+                        "`%s` indexes the diagnostic table without testing that it has a row: a run that ends before its first iteration has an empty table and str(soln) raises IndexError" % short(node, 50))
     rep.require_count(rule, "numeric conversions and len() in __str__", n, 5)
 
 
